@@ -141,6 +141,31 @@ func run(seed int64, n int, dir string, _ []string) {
 				fmt.Fprintf(&prog, "DELETE FROM `%s` WHERE id < 3; INSERT INTO `%s` VALUES (2000, 'z'); ", tabs[i].name, tabs[i].name)
 			}
 		}
+		// bystanders: tables the transaction only locks (FOR UPDATE, a data-changing statement that matches no record)
+		// or only reads, and an existing EMPTY file — they existed before the transaction too, so they must be
+		// complete (= unchanged) at every crash point as well
+		bystanders := 0
+		if g.Intn(2) == 0 {
+			for k, nb := 0, 1+g.Intn(2); k < nb; k++ {
+				name := fmt.Sprintf("b%d.csv", k)
+				content := "id,v\n1,p\n2,q\n3,r\n"
+				switch g.Intn(5) {
+				case 0:
+					fmt.Fprintf(&prog, "SELECT COUNT(*) FROM `%s` FOR UPDATE; ", name)
+				case 1:
+					fmt.Fprintf(&prog, "UPDATE `%s` SET v = 'never' WHERE id < 0; ", name)
+				case 2:
+					fmt.Fprintf(&prog, "DELETE FROM `%s` WHERE v = 'nothing'; ", name)
+				case 3:
+					fmt.Fprintf(&prog, "SELECT v FROM `%s` WHERE id < 3; ", name)
+				default:
+					content = "" // a 0-byte table file that nothing refers to
+				}
+				tabs = append(tabs, table{name, []byte(content)})
+				symlinked = append(symlinked, false)
+				bystanders++
+			}
+		}
 		if g.Intn(2) == 0 {
 			prog.WriteString("CREATE TABLE `created.csv` (a, b); INSERT INTO `created.csv` VALUES (1, 2); ")
 		}
@@ -171,9 +196,15 @@ func run(seed int64, n int, dir string, _ []string) {
 			o.Law("reference_run_failed", map[string]interface{}{"program": program, "rc": rc, "out": out})
 			continue
 		}
-		newC := make([][]byte, ntab)
+		newC := make([][]byte, len(tabs))
 		for i, t := range tabs {
 			newC[i], _ = os.ReadFile(filepath.Join(ref, t.name))
+		}
+		// a table the program never changes is, after the undisturbed run, byte for byte what it was
+		for i := ntab; i < len(tabs); i++ {
+			if !bytes.Equal(newC[i], tabs[i].old) {
+				o.Law("unchanged_table_rewritten_by_commit", map[string]interface{}{"program": program, "table": tabs[i].name, "before": string(tabs[i].old), "after": string(newC[i])})
+			}
 		}
 		tb, _ := os.ReadFile(trace)
 		points := strings.Fields(string(tb))
@@ -199,7 +230,7 @@ func run(seed int64, n int, dir string, _ []string) {
 				_ = os.RemoveAll(d)
 				continue
 			}
-			states := make([]string, ntab)
+			states := make([]string, len(tabs))
 			for i, t := range tabs {
 				b, err := os.ReadFile(filepath.Join(d, t.name))
 				switch {
@@ -217,7 +248,7 @@ func run(seed int64, n int, dir string, _ []string) {
 				}
 			}
 			// the model's answer for the table whose handler is committing at this point
-			if ntab == 1 && strings.HasPrefix(pt, "commit.") && pt != "commit.closefp" {
+			if ntab == 1 && bystanders == 0 && strings.HasPrefix(pt, "commit.") && pt != "commit.closefp" {
 				// the k-th occurrence of a commit.* point belongs to the k-th handler committed: created files
 				// first (openType ForCreate: no commit.closetemp/remove/rename points), then updated files in
 				// the order Transaction.Commit iterates them; identify the table as the one currently not
@@ -239,7 +270,7 @@ func run(seed int64, n int, dir string, _ []string) {
 					o.Law("not_recoverable_after_crash", map[string]interface{}{"crash_at": spec, "table": t.name, "rc": rc, "out": out})
 				}
 			}
-			o.NonTrivial(fmt.Sprintf("%s:%d:%s:%v", pt, ntab, strings.Join(states, ","), symlinked))
+			o.NonTrivial(fmt.Sprintf("%s:%d:%d:%s:%v", pt, ntab, bystanders, strings.Join(states, ","), symlinked))
 			_ = os.RemoveAll(d)
 		}
 		_ = os.RemoveAll(base)
